@@ -3,7 +3,8 @@ from common import *  # noqa: F401,F403
 
 RULE = ("GeneratorKnotVector.bezier/integer/uniform/random/weight for degree 0..6, npts up to 60 (quick) / 400 (thorough), cls in "
         "{int, float, Fraction}; shift / scale / normalize on random valid vectors (Fraction and float); basis-function and curve "
-        "invariance under u -> s*u + a.  Non-trivial: npts > degree + 1; distinct = distinct (generator, arguments).")
+        "invariance under u -> s*u + a.  Non-trivial: npts > degree + 1; distinct = distinct (generator, arguments)."
+        " Also: one KnotVector object inspected and evaluated before in-place shift/scale/normalize/convert.")
 EXPLANATION = ("L2: generator output vs the model (exact for Fraction/int, 1e-12 for float with the interval ends compared exactly); L3: degree, "
                "npts, simple interior knots, spacing, exact [0,1] limits, preserved multiplicities and the affine-invariance identity evaluated "
                "exactly on the real objects.")
